@@ -1,7 +1,8 @@
 """C17 - specification helpers equal their documented closed forms."""
 # round 3 (agent c17d): contracts/c17d_piecewise.py supersedes contracts/c17_builders.py (same clauses + values; a qualified name
 # can carry one contract only, and the verified node contracts of contracts/c05c_nodes.py replace its trivial assumed ones)
-CONTRACT_MODULES = ['piecewise', 'c17d_nodes', 'c17d_piecewise', 'c17d_builders']
+# round 3 (agent c17e): contracts/c17e_segmentation.py (segmented parameters; lemmas / static obligations in contracts/c17e_obligations.py)
+CONTRACT_MODULES = ['piecewise', 'c17d_nodes', 'c17d_piecewise', 'c17d_builders', 'c17e_segmentation']
 LEVEL = 'other'
 TRUSTED = ['pyvc (VC generator, Python semantics of the stated subset)', 'z3 5.1.0 / cvc5 1.0.3',
            'LEMMA sum-zero-tail (finite sums; induction)',
@@ -30,7 +31,14 @@ ASSUMPTIONS = ['A-REAL: floats are mathematical reals',
                'compared exactly, their distance from sqrt(2 pi) and log(2 pi)/2 is decided by the static obligations',
                'default parameters of piecewise_formula / piecewise_as_variable (betas=None): only safety (no exception, indexing) is proved, '
                'their value stays bounded; boxcox / loglikelihoodregression under contract for Expression arguments; '
-               'Segmentation.segmented_beta stays bounded (<= 3 x 4)']
+               'Segmentation.segmented_beta stays bounded (<= 3 x 4) [superseded by round 3 / c17e below]',
+               'round 3 (c17e) segmentation: the value of a parameter node (Beta) stays ABSTRACT (the current value of the parameter of that '
+               'name; no contract on Beta.get_value in this run); beta_name / beta_expression / list_of_expressions are applied as PURE '
+               'verified contracts (the node / the list as a function of the segmentation object and the category, allocation abstracted; the '
+               'objects are not modified: frame obligations); OneSegmentation.__init__ requires `self is not segmentation_tuple` (objects of '
+               'two classes); Segmentation.__init__ (generator of objects built under a binder) and the text of segmented_code are decided by '
+               'static AST obligations and the bounded stand-in (exec of the generated code), not by VCs; an empty mapping with no '
+               'reference escapes as StopIteration (stated in the raises clause of DiscreteSegmentationTuple.__init__)']
 EXPLANATION = ('piecewise_function is proved equal to the documented closed form for all arguments, threshold lists and '
                'coefficient lists (unbounded, loop invariant over a recursive sum).  piecewise_variables is proved to return one variable per '
                'interval without TypeError/IndexError for every well-formed threshold list, piecewise_formula / piecewise_as_variable to refuse '
@@ -47,12 +55,22 @@ EXPLANATION = ('piecewise_function is proved equal to the documented closed form
                'piecewise_formula == sum_q value(beta_q) x_q and piecewise_as_variable == x_1 + sum_{q>=2} value(beta_q) x_q for given '
                'coefficients; boxcox == 0 at x = 0, the McLaurin series iff ell < 1e-5 and ell > -1e-5, (x^ell - 1)/ell otherwise; '
                'normalpdf, lognormalpdf, uniformpdf, triangularpdf (five regions), logisticcdf and loglikelihoodregression == the textbook '
-               'terms, argument checks raise exactly when documented.')
+               'terms, argument checks raise exactly when documented.  '
+               'Round 3 (contracts/c17e_*.py): segmented parameters for EVERY number of segmentations and categories: '
+               'DiscreteSegmentationTuple refuses exactly a reference that is not a category and defaults to the first category; '
+               'OneSegmentation keeps exactly the non-reference entries; every term of list_of_expressions has the value '
+               'parameter(name_category) * [variable == code]; segmented_beta == the sum over its term list, position 0 the reference '
+               'parameter (name / start value / bounds / status of the given one), one position per (segmentation, category) pair - also '
+               'when labels are shared between segmentations; lemmas (z3, induction base / step) turn the position sum into reference + '
+               'sum_s sum_q shift * indicator; static AST obligations: segmented_code enumerates the same positions and renders the same '
+               'terms, Segmentation.__init__ builds one OneSegmentation per tuple.')
 LEVEL_TEXT = ('Mixed: deductive proof (all inputs, all list lengths) for piecewise_function and the threshold handling of the three piecewise '
               'builders and (round 3) for the values of the trees built by the piecewise builders (given coefficients), boxcox, the five '
               'distribution helpers and the regression likelihood, as equalities of terms over uninterpreted exp / log / pow; static symbolic comparison (all real values) of the density / Box-Cox / regression trees with the textbook terms; '
               'bounded stand-ins on the real code with independent oracles (scipy.stats, quadrature, 50-digit decimal arithmetic, closed '
-              'forms) for the values, labelled bounded with their bounds and never counted as proved.')
+              'forms) for the values, labelled bounded with their bounds and never counted as proved.  Round 3 (c17e): deductive proof '
+              '(all numbers of segmentations / categories) for the segmentation builders up to segmented_beta; static AST obligations for the '
+              'generated code and Segmentation.__init__; the bounded stand-in (<= 3 x 4, compiled engine, exec of the code) is kept.')
 LEVEL_NOTE = ('Trusted: pyvc, z3/cvc5, floats as reals, the finite-sum lemma, the meaning of expression nodes (C01), sympy; '
               'bounded stand-ins cover the stated shapes and grids only.')
 TECHNIQUE = ('contract-based deductive verification (AST -> VCs -> z3/cvc5) + static symbolic execution of builder tails (ast + sympy) '
@@ -63,9 +81,15 @@ try:      # replay code of every static / bounded obligation (tools that only re
     from contracts.c17_obligations import REPLAYS
 except ImportError:      # pragma: no cover
     REPLAYS = {}
+try:      # round 3 (c17e): replays of the static segmentation obligations
+    from contracts.c17e_obligations import REPLAYS as _SEG_REPLAYS
+    REPLAYS = dict(REPLAYS, **_SEG_REPLAYS)
+except ImportError:      # pragma: no cover
+    pass
 
 
 def extra(tier, seed):
     from contracts.c17_obligations import extras
     from contracts.c17d_lemmas import lemma_extras      # round 3: max/min form of the piecewise variables == case form
-    return lemma_extras() + extras(tier, seed)
+    from contracts.c17e_obligations import lemma_extras as seg_lemmas, static_extras as seg_static      # round 3 (c17e)
+    return lemma_extras() + seg_lemmas() + seg_static() + extras(tier, seed)
